@@ -357,6 +357,36 @@ func runHistory(cc crashCase, which string) (sig, detail string, st historyStats
 				sp.CutOrdinal, sp.CutOffset = o, int64(in.At*float64(pc.Result.StreamBytes[o]))
 			}
 		}
+		if in.Kind == "flip" {
+			// One bit of a chunk payload is inverted in flight - a chunk that is not the last one of
+			// a file with three or more chunks - and that payload arrives 120 ms late, so that the
+			// rest of the file, its last chunk included, is there first; the goroutine that holds
+			// the verified last chunk waits with writing it until the checksum failure has been
+			// processed (failure-finalize of the file) - the legal schedule "a stream fails while
+			// another still has a chunk of the same file in its hands". The process survives.
+			sp.Kind = "kill" // unless the damage can be placed (first run of a chain)
+			if i == 0 {
+				counts := map[string]uint32{}
+				for _, fr := range pc.Result.Frames {
+					k := fmt.Sprint(fr.Key)
+					if fr.Index+1 > counts[k] {
+						counts[k] = fr.Index + 1
+					}
+				}
+				eligible := 0
+				for _, fr := range pc.Result.Frames {
+					if n := counts[fmt.Sprint(fr.Key)]; n >= 3 && fr.Index+1 < n {
+						eligible++
+					}
+				}
+				if eligible > 0 {
+					sp.Kind, sp.KillAt, sp.KillSite = "flip", 0, ""
+					sp.Chunk = e.spec.Chunk // the chunk counts are those of the probe's geometry
+					sp.FlipCounts, sp.FlipTarget, sp.FlipDelayMs = counts, 1+int(in.At*float64(eligible))%eligible, 120
+					sp.HoldLast = true
+				}
+			}
+		}
 		if in.Kind == "wfail" {
 			// writes to any file fail beyond an offset inside the largest file (disk-full like fault)
 			maxSize := 0
@@ -385,6 +415,13 @@ func runHistory(cc crashCase, which string) (sig, detail string, st historyStats
 		oc, rerr := e.run(sp)
 		if rerr != nil {
 			return "", "", st, rerr
+		}
+		if os.Getenv("VERIF_DEBUG_HIST") != "" {
+			fmt.Printf("DEBUG spec=%+v\n result=%+v\n", sp, oc.Result)
+			for _, j := range oc.Journal {
+				fmt.Printf("   %+v\n", j)
+			}
+			fmt.Printf(" probe frames=%+v\n", pc.Result.Frames)
 		}
 		desc := fmt.Sprintf("run %d of the chain (%s at hook hit %d of %d, flush every %d marks)", i+1, in.Kind, sp.KillAt, K, in.FlushEvery)
 		if oc.Result != nil && which == "C04" {
@@ -417,12 +454,22 @@ func runHistory(cc crashCase, which string) (sig, detail string, st historyStats
 			if s != "" && which == "C05" {
 				return s, desc + ", killed at " + last.Site + ": " + d, st, nil
 			}
-		} else if in.Kind == "cut" && sp.Kind == "cut" {
-			st.sites["stream-cut-run"]++
+		} else if sp.Kind == "cut" || sp.Kind == "flip" {
+			if sp.Kind == "cut" {
+				st.sites["stream-cut-run"]++
+			} else if oc.Result != nil && oc.Result.Flipped {
+				st.sites["payload-damaged-in-flight-run"]++
+				if oc.Result.HeldReleased > 0 {
+					st.sites["last-chunk-written-after-failure-finalize"]++
+				}
+			}
 			s, d, bits, unfl := c05Inspect(e, oc, loadable)
 			st.setBits += bits
 			st.unflushed += unfl
 			if s != "" && which == "C05" {
+				if sp.Kind == "flip" {
+					return s, desc + fmt.Sprintf(", payload of eligible data frame %d damaged in flight and late, last chunks held back: ", sp.FlipTarget) + d, st, nil
+				}
 				return s, desc + fmt.Sprintf(", data stream %d ended at byte %d while the others went on: ", sp.CutOrdinal, sp.CutOffset) + d, st, nil
 			}
 		} else if in.Kind == "drop" {
@@ -493,14 +540,16 @@ func runHistory(cc crashCase, which string) (sig, detail string, st historyStats
 	return "", "", st, nil
 }
 
-// crashKinds: "cut" (one data stream silently ends in mid-frame while the others go on) leaves
-// both endpoints waiting until the runner's idle detector gives up, about 15 s per run: it
-// is drawn in the thorough tier only.
+// crashKinds: "cut" (one data stream silently ends at a fraction of its bytes while the others
+// go on) often falls into a frame header, which the receiver takes for an orderly end of the
+// stream; both endpoints then wait until the runner's idle detector gives up, about 15 s per
+// run: it is drawn in the thorough tier only. "flip" damages one chunk payload in flight (the
+// receiver fails at once: checksum) and holds the file's last chunk back, see runHistory.
 func crashKinds() []string {
 	if verifkit.Thorough() {
-		return []string{"kill", "kill", "kill", "kill", "drop", "drop", "wfail", "wfail", "cut"}
+		return []string{"kill", "kill", "kill", "kill", "drop", "drop", "wfail", "wfail", "cut", "flip", "flip"}
 	}
-	return []string{"kill", "kill", "kill", "drop", "wfail"}
+	return []string{"kill", "kill", "kill", "drop", "wfail", "flip"}
 }
 
 func genCrashCase(t *rapid.T) crashCase {
